@@ -92,8 +92,7 @@ Proof.
   destruct ps as [|q ps].
   - cbn [join]. apply split_on_notin, Hp.
   - rewrite join_cons2. cbn [app]. rewrite split_on_app_sep. rewrite (split_on_notin c p Hp).
-    match goal with |- ?G => idtac G end.
-    rewrite IH; [reflexivity|discriminate|exact Hps].
+    cbn [app]. f_equal. apply IH; [discriminate|exact Hps].
 Qed.
 
 Lemma is_fields_split line : is_fields line (split_on SP line).
